@@ -17,6 +17,7 @@ Check(r) ==
     [] r.e = "FR"  -> Check_FR(r)
     [] r.e = "VEC" -> Check_VEC(r)
     [] r.e = "FWM" -> Check_FWM(r, Defs[r.d])
+    [] r.e = "REWRITE" -> Check_REWRITE(r)
     [] r.e = "X25ALL" -> Check_X25ALL(r)
     [] r.e = "X25S" -> Check_X25S(r)
     [] r.e = "TIMED" -> Check_TIMED(r)
